@@ -28,6 +28,11 @@ CHECKS = {
    text="signed_shift / unsigned_shift / open / free_variables are compared with renaming and capture-avoiding substitution on named terms (globally fresh binder names) and with the algebraic laws of the property, for every hole-free term up to 5-6 nodes over all formers, every 1-3-definition group with leaf slots, a full grid of cutoffs, amounts, indices and inserted terms, and proptest-generated deeper terms. Exhaustive within the bound, sampled beyond.",
    note="Trusts the named-term model (conversion by context of names; Barendregt convention) and the reading of open's shift argument stated in the evidence file.",
    ref="DESIGN.md section 3, C11"),
+ "C13": dict(
+   technique="property-based testing (proptest) with repeated process launches; oracle = byte equality across runs",
+   text="Generated files built to produce several diagnostics at once (a definition that mentions 2-6 later non-value definitions, several unbound / re-bound names, several type errors, several stray symbols, mixtures), accepted programs, syntax near-misses, invalid UTF-8 and the empty file are run 6 (quick) / 20 (thorough) times per sub-command in separate processes; (status, stdout, stderr) must be byte-identical. In-process companion: 10 parse() calls on the same tokens must return identical diagnostics. Cannot prove determinism; the escape probability per file with k permutable diagnostics is (1/k!)^(launches-1).",
+   note="Trusts process isolation (fresh hash seeds per launch). Fixed path, cwd and NO_COLOR.",
+   ref="DESIGN.md section 3, C13"),
  "C14": dict(
    technique="property-based testing / fuzzing (proptest) + bounded-exhaustive enumeration, in worker processes with abort attribution",
    text="Robustness fuzzing with a result-shape oracle: generated Unicode strings, token soups, character- and token-damaged sentences, every token string up to length 4/5, unbalanced brackets, truncated sentences and scoping-valid ill-typed programs go through tokenize / parse / type_check under catch_unwind in worker processes (a stack overflow or hang is attributed to the announced case); files of arbitrary bytes (invalid UTF-8, empty, damaged programs, nesting to 1000) go through `gram check`. No panic; Ok or a non-empty list of [Error] diagnostics; CLI exit 0 + `Elaborated term:` + empty stderr, or exit 1 + empty stdout + [Error]. Sampled except for the short token strings.",
